@@ -218,6 +218,28 @@ def build_system(w: World, graph):
     return mfa, leafs
 
 
+def balance_method(prog):
+    """the method of MFASystem that computes the per-process balances: by its (private) name, else by role - a self-method
+    called from check_mass_balance whose result is iterated with .items() / indexed per process"""
+    cls = prog.cls("MFASystem")
+    r = prog.find_attr(cls, "_get_mass_balance")
+    if r and r[0] == "method":
+        return r[1].name
+    chk = prog.method("MFASystem", "check_mass_balance")
+    import ast as _ast
+    for n in _ast.walk(chk.node):
+        if isinstance(n, _ast.Assign) and isinstance(n.value, _ast.Call) and isinstance(n.value.func, _ast.Attribute) \
+                and _ast.unparse(n.value.func.value) == "self" and not n.value.args:
+            m = prog.find_attr(cls, n.value.func.attr)
+            if m and m[0] == "method" and "balance" in n.value.func.attr:
+                return n.value.func.attr
+    raise AnalysisError("the balance computation of MFASystem was not found (neither `_get_mass_balance` nor a self.<...balance...>() call in check_mass_balance)")
+
+
+def balances_of(it, mfa):
+    return it.call_method(mfa, balance_method(it.p))
+
+
 def oracle_balances(w: World, graph):
     procs_n, flows_n, stocks_n = graph
     contrib = {p: [] for p in procs_n}       # (sign, leaf name, dims)
@@ -257,7 +279,7 @@ def balance_cases(prog, rep, fails):
         if kind != "ok":
             raise AnalysisError(f"could not build the abstract system {inp}: {r}")
         mfa, leafs = r
-        kind, bal = run_guarded(lambda: w.it.call_method(mfa, "_get_mass_balance"))
+        kind, bal = run_guarded(lambda: balances_of(w.it, mfa))
         rep.evaluations += 1
         exp = oracle_balances(w, graph)
         if kind != "ok" or not isinstance(bal, dict):
@@ -313,7 +335,7 @@ def verdict_case(prog, rep, fails, gi, graph, assign, raise_error, tol):
     w.it = it
     mfa, leafs = build_system(w, graph)
     # the balances as the code computes them (their correctness is the business of C02.balance-contributions)
-    kind0, bal0 = run_guarded(lambda: it.call_method(mfa, "_get_mass_balance"))
+    kind0, bal0 = run_guarded(lambda: balances_of(it, mfa))
     if kind0 != "ok" or not isinstance(bal0, dict):
         return
     it.bal_terms = {p: b.f["values"].term for p, b in bal0.items() if isinstance(b, Obj) and isinstance(b.f.get("values"), AArr)}
@@ -422,7 +444,7 @@ def run(prog, rep):
     rep.rule("C02.balance-contributions", "per-process balance = +flows in - flows out - stock change (+ mirror on sysenv), summed by label to the common dims; total on empty collections")
     rep.rule("C02.balance-verdict", "check_mass_balance raises / warns exactly when a balance class is above tolerance or NaN; never success on NaN")
     rep.rule("C02.check-flows", "check_flows flags exactly the non-excepted flows containing NaN or an entry below -tolerance")
-    for m in ("_get_mass_balance", "check_mass_balance", "check_flows", "_absolute_float_precision", "_error_or_warning"):
+    for m in ("check_mass_balance", "check_flows"):
         prog.method("MFASystem", m)
     fails = {}
     balance_cases(prog, rep, fails)
